@@ -828,3 +828,23 @@ M('c13-result-copied-from-cached', 'C13', 'R13.7', [(FB,
   "        operation.file_comparison_result = (\n"
   "            cached_operation.file_comparison_result)\n")],
   'the reused record keeps the cached result (possibly of another mode)')
+M('c02-sweep-handler-around-loop', ['C02', 'C03'], ['R2.3', 'R3.5'], [(FB,
+  "        for dir_ in sorted_dirs:\n"
+  "            try:\n"
+  "                os.rmdir(dir_)\n"
+  "            except OSError:\n"
+  "                continue\n"
+  "            logger.info('Removed empty directory {:s}'.format(dir_))\n",
+  "        try:\n"
+  "            for dir_ in sorted_dirs:\n"
+  "                os.rmdir(dir_)\n"
+  "                logger.info('Removed empty directory {:s}'.format(dir_))\n"
+  "        except OSError:\n"
+  "            pass\n")],
+  'the first directory that cannot be removed ends the sweep')
+M('c02-rollback-asks-get-file', ['C02', 'C12'], ['R2.8', 'R12.8'], [(FB,
+  "            if not self._old_cache.created_file(filename):\n"
+  "                FileBuilder._try_to_remove_file(filename)",
+  "            if self._old_cache.get_file(filename) is None:\n"
+  "                FileBuilder._try_to_remove_file(filename)")],
+  'a failed record of the previous build counts as an output')
